@@ -143,63 +143,108 @@ func (c *Ctx) codec() *codecTables {
 			reg := region(fn, b.Succs[0])
 			type rec struct {
 				pos token.Pos
+				sub token.Pos
 				tok string
 			}
 			var recs []rec
-			for rb := range reg {
-				loop := ""
-				if inLoop(rb) {
-					loop = "loop:"
-				}
-				for _, ins := range rb.Instrs {
-					call, ok := ins.(*ssa.Call)
-					if !ok {
-						continue
+			// collectEnc walks the blocks of one case; a call of a new helper ("encodeWithBody(hdr, body)")
+			// is descended into with the helper's parameters replaced by this call's arguments
+			var collectEnc func(blocks map[*ssa.BasicBlock]bool, outerLoop string, base token.Pos, env map[ssa.Value]ssa.Value, depth int)
+			collectEnc = func(blocks map[*ssa.BasicBlock]bool, outerLoop string, base token.Pos, env map[ssa.Value]ssa.Value, depth int) {
+				subst := func(v ssa.Value) ssa.Value {
+					for k := 0; k < 4; k++ {
+						if r, ok := env[v]; ok {
+							v = r
+							continue
+						}
+						break
 					}
-					switch callee(call) {
-					case "(desync.writer).WriteUint64":
-						for i, el := range variadicElems(call.Call.Args[len(call.Call.Args)-1]) {
-							tok := "?"
-							fs := fieldsIn(el, typ, map[ssa.Value]bool{}, 0)
-							if len(fs) == 0 {
-								fs = fieldsIn(el, "FormatHeader", map[ssa.Value]bool{}, 0)
+					return v
+				}
+				for rb := range blocks {
+					loop := outerLoop
+					if inLoop(rb) {
+						loop = "loop:"
+					}
+					for _, ins := range rb.Instrs {
+						call, ok := ins.(*ssa.Call)
+						if !ok {
+							continue
+						}
+						pos := call.Pos()
+						sub := call.Pos()
+						if base.IsValid() {
+							pos = base
+						}
+						if h := directCallee(call); h != nil && newHelpers[h] && h.Blocks != nil && depth < 3 {
+							hb := map[*ssa.BasicBlock]bool{}
+							for _, x := range h.Blocks {
+								hb[x] = true
 							}
-							if len(fs) == 0 {
-								for _, it := range []string{"FormatGoodbyeItem", "FormatTableItem"} {
-									if f2 := fieldsIn(el, it, map[ssa.Value]bool{}, 0); len(f2) > 0 {
-										fs = f2
+							env2 := map[ssa.Value]ssa.Value{}
+							for k, v := range env {
+								env2[k] = v
+							}
+							for k, p := range h.Params {
+								if k < len(call.Call.Args) {
+									env2[p] = subst(call.Call.Args[k])
+								}
+							}
+							collectEnc(hb, loop, pos, env2, depth+1)
+							continue
+						}
+						switch callee(call) {
+						case "(desync.writer).WriteUint64":
+							for i, el := range variadicElems(call.Call.Args[len(call.Call.Args)-1]) {
+								el = substDeep(el, subst)
+								tok := "?"
+								fs := fieldsIn(el, typ, map[ssa.Value]bool{}, 0)
+								if len(fs) == 0 {
+									fs = fieldsIn(el, "FormatHeader", map[ssa.Value]bool{}, 0)
+								}
+								if len(fs) == 0 {
+									for _, it := range []string{"FormatGoodbyeItem", "FormatTableItem"} {
+										if f2 := fieldsIn(el, it, map[ssa.Value]bool{}, 0); len(f2) > 0 {
+											fs = f2
+										}
 									}
 								}
-							}
-							switch {
-							case len(fs) > 0:
-								tok = fs[len(fs)-1]
-							default:
-								if k, ok := el.(*ssa.Const); ok && k.Value != nil {
-									tok = "const:" + k.Value.ExactString()
-								} else {
-									tok = "expr"
+								switch {
+								case len(fs) > 0:
+									tok = fs[len(fs)-1]
+								default:
+									if k, ok := el.(*ssa.Const); ok && k.Value != nil {
+										tok = "const:" + k.Value.ExactString()
+									} else {
+										tok = "expr"
+									}
 								}
+								recs = append(recs, rec{pos, sub + token.Pos(i), loop + tok})
 							}
-							recs = append(recs, rec{call.Pos() + token.Pos(i), loop + tok})
+						case "(desync.writer).WriteID":
+							fs := fieldsIn(substDeep(call.Call.Args[len(call.Call.Args)-1], subst), "FormatTableItem", map[ssa.Value]bool{}, 0)
+							recs = append(recs, rec{pos, sub, loop + "id:" + strings.Join(fs, "")})
+						case "io.Copy":
+							src := substDeep(call.Call.Args[1], subst)
+							fs := fieldsIn(src, typ, map[ssa.Value]bool{}, 0)
+							kind := "stream"
+							if hasOriginDeep(src, "strings.NewReader") {
+								kind = "str"
+							} else if hasOriginDeep(src, "bytes.NewReader") {
+								kind = "bytes"
+							}
+							recs = append(recs, rec{pos, sub, loop + kind + ":" + strings.Join(fs, "")})
 						}
-					case "(desync.writer).WriteID":
-						fs := fieldsIn(call.Call.Args[len(call.Call.Args)-1], "FormatTableItem", map[ssa.Value]bool{}, 0)
-						recs = append(recs, rec{call.Pos(), loop + "id:" + strings.Join(fs, "")})
-					case "io.Copy":
-						src := call.Call.Args[1]
-						fs := fieldsIn(src, typ, map[ssa.Value]bool{}, 0)
-						kind := "stream"
-						if hasOriginDeep(src, "strings.NewReader") {
-							kind = "str"
-						} else if hasOriginDeep(src, "bytes.NewReader") {
-							kind = "bytes"
-						}
-						recs = append(recs, rec{call.Pos(), loop + kind + ":" + strings.Join(fs, "")})
 					}
 				}
 			}
-			sort.Slice(recs, func(i, j int) bool { return recs[i].pos < recs[j].pos })
+			collectEnc(reg, "", token.NoPos, map[ssa.Value]ssa.Value{}, 0)
+			sort.SliceStable(recs, func(i, j int) bool {
+				if recs[i].pos != recs[j].pos {
+					return recs[i].pos < recs[j].pos
+				}
+				return recs[i].sub < recs[j].sub
+			})
 			var toks []string
 			for _, r := range recs {
 				toks = append(toks, r.tok)
@@ -317,7 +362,7 @@ func (c *Ctx) codec() *codecTables {
 			for _, r := range recs {
 				toks = append(toks, r.tok)
 			}
-			t.dec[typ] = toks
+			t.dec[typ] = rotatePrimedLoop(toks)
 			t.decPos[typ] = iff.Pos()
 			if !t.decPos[typ].IsValid() && len(recs) > 0 {
 				t.decPos[typ] = recs[0].pos
@@ -584,4 +629,38 @@ func constTrips(b *ssa.BasicBlock) int {
 		}
 	}
 	return 0
+}
+
+// substDeep applies a parameter substitution to a value: the value itself, or - for a field read
+// of a substituted struct parameter (hdr.Size with hdr := t.FormatHeader) - a value that the field
+// walkers resolve the same way (the struct argument itself, whose fields are then looked up).
+func substDeep(v ssa.Value, subst func(ssa.Value) ssa.Value) ssa.Value {
+	if r := subst(v); r != v {
+		return r
+	}
+	return v
+}
+
+// rotatePrimedLoop normalises a "priming read" loop:  x := read(); for x != 0 { y := read(); x = read() }
+// reads X (Y X)*, which is the same sequence as the plain form (X Y)* X whose final X is the
+// terminator read inside the loop.  Tokens: [X, loop:Y..., loop:X] -> [loop:X, loop:Y...].
+func rotatePrimedLoop(toks []string) []string {
+	for i := 0; i < len(toks); i++ {
+		if strings.HasPrefix(toks[i], "loop:") {
+			continue
+		}
+		// the run of loop tokens that follows
+		j := i + 1
+		for j < len(toks) && strings.HasPrefix(toks[j], "loop:") {
+			j++
+		}
+		if j-i >= 3 && toks[j-1] == "loop:"+toks[i] {
+			out := append([]string{}, toks[:i]...)
+			out = append(out, toks[j-1])
+			out = append(out, toks[i+1:j-1]...)
+			out = append(out, toks[j:]...)
+			return out
+		}
+	}
+	return toks
 }
